@@ -30,7 +30,7 @@ package services
 //@   uses tables notifyspec
 //@   nopanic
 //@   requires s != nil && s.client != nil && req != nil && tables_wf()
-//@   ensures error_leaves_state: [C16] err != nil ==> state_unchanged()
+//@   ensures error_leaves_state: [C16 C09] err != nil ==> state_unchanged()
 
 // C12: Get succeeds exactly for live resources: it answers with the resource of that name when one is live, and with an
 // error otherwise (storage failures aside).
@@ -39,7 +39,7 @@ package services
 //@   uses tables notifyspec
 //@   nopanic
 //@   requires s != nil && s.client != nil && req != nil && tables_wf()
-//@   ensures error_leaves_state: [C16] err != nil ==> state_unchanged()
+//@   ensures error_leaves_state: [C16 C09] err != nil ==> state_unchanged()
 //@   ensures get_sound: [C12] err == nil ==> resp != nil && resp.Name == req.Subscription && valid_subscription_name(req.Subscription) && (exists x Id :: subscriptions.exists(x) && subscriptions.deleted_at$null(x) && subscriptions.name(x) == req.Subscription)
 //@   ensures get_complete: [C12] valid_subscription_name(req.Subscription) && (exists x Id :: subscriptions.exists(x) && subscriptions.deleted_at$null(x) && subscriptions.name(x) == req.Subscription) && (forall x Id, y Id :: {subscriptions.name(x), subscriptions.name(y)} subscriptions.exists(x) && subscriptions.deleted_at$null(x) && subscriptions.name(x) == req.Subscription && subscriptions.exists(y) && subscriptions.deleted_at$null(y) && subscriptions.name(y) == req.Subscription ==> x == y) && !dbfailed() ==> err == nil
 
@@ -67,28 +67,28 @@ package services
 //@   uses tables notifyspec
 //@   nopanic
 //@   requires s != nil && s.client != nil && req != nil && tables_wf()
-//@   ensures error_leaves_state: [C16] err != nil ==> state_unchanged()
+//@   ensures error_leaves_state: [C16 C09] err != nil ==> state_unchanged()
 
 //@ func (*subscriberServer).DeleteSubscription(s, ctx, req) (resp, err)
 //@   property C16
 //@   uses tables notifyspec
 //@   nopanic
 //@   requires s != nil && s.client != nil && req != nil && tables_wf()
-//@   ensures error_leaves_state: [C16] err != nil ==> state_unchanged()
+//@   ensures error_leaves_state: [C16 C09] err != nil ==> state_unchanged()
 
 //@ func (*subscriberServer).ModifyAckDeadline(s, ctx, req) (resp, err)
 //@   property C16
 //@   uses tables notifyspec
 //@   nopanic
 //@   requires s != nil && s.client != nil && req != nil && tables_wf()
-//@   ensures error_leaves_state: [C16] err != nil ==> state_unchanged()
+//@   ensures error_leaves_state: [C16 C09] err != nil ==> state_unchanged()
 
 //@ func (*subscriberServer).Acknowledge(s, ctx, req) (resp, err)
 //@   property C16
 //@   uses tables notifyspec
 //@   nopanic
 //@   requires s != nil && s.client != nil && req != nil && tables_wf()
-//@   ensures error_leaves_state: [C16] err != nil ==> state_unchanged()
+//@   ensures error_leaves_state: [C16 C09] err != nil ==> state_unchanged()
 
 //@ func (*subscriberServer).Pull(s, ctx, req) (resp, err)
 //@   property C16
@@ -101,14 +101,14 @@ package services
 //@   uses tables notifyspec
 //@   nopanic
 //@   requires s != nil && s.client != nil && req != nil && tables_wf()
-//@   ensures error_leaves_state: [C16] err != nil ==> state_unchanged()
+//@   ensures error_leaves_state: [C16 C09] err != nil ==> state_unchanged()
 
 //@ func (*subscriberServer).ModifyPushConfig(s, ctx, req) (resp, err)
 //@   property C16
 //@   uses tables notifyspec
 //@   nopanic
 //@   requires s != nil && s.client != nil && req != nil && tables_wf()
-//@   ensures error_leaves_state: [C16] err != nil ==> state_unchanged()
+//@   ensures error_leaves_state: [C16 C09] err != nil ==> state_unchanged()
 
 // C12: Get succeeds exactly for resources: it answers with the resource of that name when one exists, and with an
 // error otherwise (storage failures aside).
@@ -117,7 +117,7 @@ package services
 //@   uses tables notifyspec
 //@   nopanic
 //@   requires s != nil && s.client != nil && req != nil && tables_wf()
-//@   ensures error_leaves_state: [C16] err != nil ==> state_unchanged()
+//@   ensures error_leaves_state: [C16 C09] err != nil ==> state_unchanged()
 //@   ensures get_sound: [C12] err == nil ==> resp != nil && resp.Name == req.Snapshot && valid_snapshot_name(req.Snapshot) && (exists x Id :: snapshots.exists(x) && snapshots.name(x) == req.Snapshot)
 //@   ensures get_complete: [C12] valid_snapshot_name(req.Snapshot) && (exists x Id :: snapshots.exists(x) && snapshots.name(x) == req.Snapshot) && (forall x Id, y Id :: {snapshots.name(x), snapshots.name(y)} snapshots.exists(x) && snapshots.name(x) == req.Snapshot && snapshots.exists(y) && snapshots.name(y) == req.Snapshot ==> x == y) && !dbfailed() ==> err == nil
 
@@ -126,28 +126,28 @@ package services
 //@   uses tables notifyspec
 //@   nopanic
 //@   requires s != nil && s.client != nil && req != nil && tables_wf()
-//@   ensures error_leaves_state: [C16] err != nil ==> state_unchanged()
+//@   ensures error_leaves_state: [C16 C09] err != nil ==> state_unchanged()
 
 //@ func (*subscriberServer).UpdateSnapshot(s, ctx, req) (resp, err)
 //@   property C16
 //@   uses tables notifyspec
 //@   nopanic
 //@   requires s != nil && s.client != nil && req != nil && tables_wf()
-//@   ensures error_leaves_state: [C16] err != nil ==> state_unchanged()
+//@   ensures error_leaves_state: [C16 C09] err != nil ==> state_unchanged()
 
 //@ func (*subscriberServer).DeleteSnapshot(s, ctx, req) (resp, err)
 //@   property C16
 //@   uses tables notifyspec
 //@   nopanic
 //@   requires s != nil && s.client != nil && req != nil && tables_wf()
-//@   ensures error_leaves_state: [C16] err != nil ==> state_unchanged()
+//@   ensures error_leaves_state: [C16 C09] err != nil ==> state_unchanged()
 
 //@ func (*publisherServer).CreateTopic(s, ctx, req) (resp, err)
 //@   property C16
 //@   uses tables notifyspec
 //@   nopanic
 //@   requires s != nil && s.client != nil && req != nil && tables_wf()
-//@   ensures error_leaves_state: [C16] err != nil ==> state_unchanged()
+//@   ensures error_leaves_state: [C16 C09] err != nil ==> state_unchanged()
 
 // C12: Get succeeds exactly for live resources: it answers with the resource of that name when one is live, and with an
 // error otherwise (storage failures aside).
@@ -156,7 +156,7 @@ package services
 //@   uses tables notifyspec
 //@   nopanic
 //@   requires s != nil && s.client != nil && req != nil && tables_wf()
-//@   ensures error_leaves_state: [C16] err != nil ==> state_unchanged()
+//@   ensures error_leaves_state: [C16 C09] err != nil ==> state_unchanged()
 //@   ensures get_sound: [C12] err == nil ==> resp != nil && resp.Name == req.Topic && valid_topic_name(req.Topic) && (exists x Id :: topics.exists(x) && topics.deleted_at$null(x) && topics.name(x) == req.Topic)
 //@   ensures get_complete: [C12] valid_topic_name(req.Topic) && (exists x Id :: topics.exists(x) && topics.deleted_at$null(x) && topics.name(x) == req.Topic) && (forall x Id, y Id :: {topics.name(x), topics.name(y)} topics.exists(x) && topics.deleted_at$null(x) && topics.name(x) == req.Topic && topics.exists(y) && topics.deleted_at$null(y) && topics.name(y) == req.Topic ==> x == y) && !dbfailed() ==> err == nil
 
@@ -170,14 +170,14 @@ package services
 //@   uses tables notifyspec
 //@   nopanic
 //@   requires s != nil && s.client != nil && req != nil && tables_wf()
-//@   ensures error_leaves_state: [C16] err != nil ==> state_unchanged()
+//@   ensures error_leaves_state: [C16 C09] err != nil ==> state_unchanged()
 
 //@ func (*publisherServer).DeleteTopic(s, ctx, req) (resp, err)
 //@   property C16
 //@   uses tables notifyspec
 //@   nopanic
 //@   requires s != nil && s.client != nil && req != nil && tables_wf()
-//@   ensures error_leaves_state: [C16] err != nil ==> state_unchanged()
+//@   ensures error_leaves_state: [C16 C09] err != nil ==> state_unchanged()
 
 // C01 / C02 / C16: Publish answers with one id per message of the request, in order, and the i-th id is the id of a
 // newly stored message carrying exactly the i-th message's payload, attributes and ordering key on the named live
@@ -187,7 +187,7 @@ package services
 //@   uses tables notifyspec
 //@   nopanic
 //@   requires s != nil && s.client != nil && req != nil && tables_wf()
-//@   ensures error_leaves_state: [C16] err != nil ==> state_unchanged()
+//@   ensures error_leaves_state: [C16 C09] err != nil ==> state_unchanged()
 //@   requires forall i int :: {req.Messages[i]} 0 <= i && i < len(req.Messages) ==> req.Messages[i] != nil
 //@   ensures ids_returned: [C01 C02] err == nil ==> resp != nil && len(resp.MessageIds) == len(req.Messages) &&
 //@             (forall i int :: {resp.MessageIds[i]} 0 <= i && i < len(req.Messages) ==> (exists m Id :: {messages.payload(m)} resp.MessageIds[i] == uuidstr(m) && messages.exists(m) && !old(messages.exists(m)) && messages.payload(m) == req.Messages[i].Data.base && messages.attributes(m) == req.Messages[i].Attributes && (messages.order_key$null(m) <==> req.Messages[i].OrderingKey == "") && (req.Messages[i].OrderingKey != "" ==> messages.order_key(m) == req.Messages[i].OrderingKey) && live_topic(messages.topic_id(m)) && topics.name(messages.topic_id(m)) == req.Topic))
@@ -267,7 +267,7 @@ package services
 //@   uses tables notifyspec
 //@   nopanic
 //@   requires s != nil && s.client != nil && req != nil && tables_wf()
-//@   ensures error_leaves_state: [C16] err != nil ==> state_unchanged()
+//@   ensures error_leaves_state: [C16 C09] err != nil ==> state_unchanged()
 //@   ensures page_sound: [C12] err == nil ==> resp != nil && (forall k int :: {resp.Topics[k]} 0 <= k && k < len(resp.Topics) ==> resp.Topics[k] != nil &&
 //@             (exists x Id :: topics.exists(x) && topics.deleted_at$null(x) && topics.name(x) == resp.Topics[k].Name &&
 //@                hasPrefix(topics.name(x), concat(req.Project, "/topics/")) && after_token(x, req.PageToken)))
@@ -300,7 +300,7 @@ package services
 //@   uses tables notifyspec
 //@   nopanic
 //@   requires s != nil && s.client != nil && req != nil && tables_wf()
-//@   ensures error_leaves_state: [C16] err != nil ==> state_unchanged()
+//@   ensures error_leaves_state: [C16 C09] err != nil ==> state_unchanged()
 //@   ensures page_sound: [C12] err == nil ==> resp != nil && (forall k int :: {resp.Subscriptions[k]} 0 <= k && k < len(resp.Subscriptions) ==> resp.Subscriptions[k] != nil &&
 //@             (exists x Id :: subscriptions.exists(x) && subscriptions.deleted_at$null(x) && subscriptions.name(x) == resp.Subscriptions[k].Name &&
 //@                hasPrefix(subscriptions.name(x), concat(req.Project, "/subscriptions/")) && after_token(x, req.PageToken)))
@@ -333,7 +333,7 @@ package services
 //@   uses tables notifyspec
 //@   nopanic
 //@   requires s != nil && s.client != nil && req != nil && tables_wf()
-//@   ensures error_leaves_state: [C16] err != nil ==> state_unchanged()
+//@   ensures error_leaves_state: [C16 C09] err != nil ==> state_unchanged()
 //@   ensures page_sound: [C12] err == nil ==> resp != nil && (forall k int :: {resp.Snapshots[k]} 0 <= k && k < len(resp.Snapshots) ==> resp.Snapshots[k] != nil &&
 //@             (exists x Id :: snapshots.exists(x) && snapshots.name(x) == resp.Snapshots[k].Name &&
 //@                hasPrefix(snapshots.name(x), concat(req.Project, "/snapshots/")) && after_token(x, req.PageToken)))
@@ -365,7 +365,7 @@ package services
 //@   uses tables notifyspec
 //@   nopanic
 //@   requires s != nil && s.client != nil && req != nil && tables_wf()
-//@   ensures error_leaves_state: [C16] err != nil ==> state_unchanged()
+//@   ensures error_leaves_state: [C16 C09] err != nil ==> state_unchanged()
 //@   ensures page_sound: [C12] err == nil ==> resp != nil && (forall k int :: {resp.Subscriptions[k]} 0 <= k && k < len(resp.Subscriptions) ==>
 //@             (exists x Id :: subscriptions.exists(x) && subscriptions.deleted_at$null(x) && live_topic(subscriptions.topic_id(x)) && topics.name(subscriptions.topic_id(x)) == req.Topic && after_token(x, req.PageToken) && subscriptions.name(x) == resp.Subscriptions[k]))
 //@   ensures page_bounded: [C12] err == nil ==> len(resp.Subscriptions) <= page_limit(req.PageSize)
